@@ -1,5 +1,6 @@
 import Txtpp.Lemmas.SinkFacts
 import Txtpp.Lemmas.Hermetic
+import Txtpp.Lemmas.PassRel
 /-!
 # Property C08 — builds are a function of the sources only (hermetic, idempotent)
 -/
@@ -48,5 +49,72 @@ theorem builds_are_a_function_of_sources {C : Type} (w : Coord.World) (R : Coord
     (hq : x.st.pool = []) (hno : ¬ Coord.Leftover x.st) (hq' : x'.st.pool = []) (hno' : ¬ Coord.Leftover x'.st) :
     (∀ f, f ∈ x.st.dm.fin ↔ f ∈ x'.st.dm.fin) ∧ ∀ f ∈ x.st.dm.fin, x.outp f = x'.outp f :=
   Coord.hermetic w R hR inputs out0 out0' x x' h h' hq hno hq' hno'
+
+/-- **One pass is a function of the sources** (the instantiation of `render` for the concrete
+preprocessor). Run a build / only-if-needed pass over `src` from two file systems that agree
+outside a set `S` of stale paths (whatever earlier or interrupted runs left there: other bytes, a
+prefix, nothing). If the source is not stale, no block reads a path while it is still stale
+(`Safe`: an `include`/`cat` of a temp file *after* the `temp` block that writes it is fine) and no
+dependency lookup probes a stale path, then the verdicts are equal and the resulting file systems
+agree outside `S`; after an `ok` pass they also agree at the output and at every temp target written. -/
+theorem pass_is_a_function_of_sources (cfg : Cfg) (hm : cfg.mode = .build ∨ cfg.mode = .inMemory) (a b : FS) (S : List Path)
+    (src : Path) (first : Bool) (hag : Agree S a b) (hsrc : src ∉ S)
+    (hsafe : ∀ content o bs, a.file? src = some content → outputPath src = some o →
+      srcBlocks cfg.mode (decodeLines (byteLines content.toList)).1 = some bs →
+      Safe cfg a src.dropLast bs (staleOpen cfg.mode S o) ∧ ProbesOK cfg a src.dropLast (staleOpen cfg.mode S o) bs) :
+    (runPass cfg a src first).1 = (runPass cfg b src first).1 ∧
+    Agree S (runPass cfg a src first).2 (runPass cfg b src first).2 ∧
+    ((runPass cfg a src first).1 = .ok → ∀ content o bs, a.file? src = some content → outputPath src = some o →
+      srcBlocks cfg.mode (decodeLines (byteLines content.toList)).1 = some bs →
+      Agree ((staleAfter cfg a src.dropLast bs (staleOpen cfg.mode S o)).filter (· != o))
+        (runPass cfg a src first).2 (runPass cfg b src first).2) :=
+  runPass_rel cfg hm a b S src first hag hsrc hsafe
+
+/-- **Leftovers at generated paths are irrelevant.** If the two pre-states differ only at paths this
+pass generates itself (its output, its temp targets), then the verdicts are equal and after an `ok`
+pass every path holds the same bytes in both. -/
+theorem leftovers_at_generated_paths_irrelevant (cfg : Cfg) (hm : cfg.mode = .build ∨ cfg.mode = .inMemory) (a b : FS) (S : List Path)
+    (src : Path) (first : Bool) (content : ByteArray) (o : Path) (bs : List (Refine.Block Directive))
+    (hfile : a.file? src = some content) (hout : outputPath src = some o)
+    (hbs : srcBlocks cfg.mode (decodeLines (byteLines content.toList)).1 = some bs)
+    (hag : Agree S a b) (hsrc : src ∉ S) (hgen : ∀ p ∈ S, p ∈ generated cfg a src.dropLast o bs)
+    (hsafe : Safe cfg a src.dropLast bs (staleOpen cfg.mode S o)) (hprobes : ProbesOK cfg a src.dropLast (staleOpen cfg.mode S o) bs) :
+    (runPass cfg a src first).1 = (runPass cfg b src first).1 ∧
+    ((runPass cfg a src first).1 = .ok → ∀ q, (runPass cfg a src first).2.file? q = (runPass cfg b src first).2.file? q) :=
+  runPass_leftovers_irrelevant cfg hm a b S src first content o bs hfile hout hbs hag hsrc hgen hsafe hprobes
+
+/-- **Building twice equals building once (one source).** -/
+theorem build_twice_eq_once (cfg : Cfg) (hm : cfg.mode = .build ∨ cfg.mode = .inMemory) (a a' : FS) (src : Path) (first : Bool)
+    (content : ByteArray) (o : Path) (bs : List (Refine.Block Directive))
+    (hfile : a.file? src = some content) (hout : outputPath src = some o)
+    (hbs : srcBlocks cfg.mode (decodeLines (byteLines content.toList)).1 = some bs)
+    (hsrc : src ∉ generated cfg a src.dropLast o bs)
+    (hsafe : Safe cfg a src.dropLast bs (staleOpen cfg.mode (generated cfg a src.dropLast o bs) o))
+    (hprobes : ProbesOK cfg a src.dropLast (staleOpen cfg.mode (generated cfg a src.dropLast o bs) o) bs)
+    (h1 : runPass cfg a src first = (.ok, a')) :
+    (runPass cfg a' src first).1 = .ok ∧ ∀ q, (runPass cfg a' src first).2.file? q = a'.file? q :=
+  runPass_idempotent cfg hm a a' src first content o bs hfile hout hbs hsrc hsafe hprobes h1
+
+/-- what is still stale after the blocks of a source are exactly the stale paths no temp block wrote -/
+theorem stale_after_characterised (cfg : Cfg) (fs0 : FS) (wd : Path) (q : Path) (bs : List (Refine.Block Directive)) (S : List Path) :
+    q ∈ staleAfter cfg fs0 wd bs S ↔ q ∈ S ∧ ∀ d e, Refine.Block.dir d e ∈ bs → dirWrites cfg fs0 wd d ≠ some q :=
+  mem_staleAfter cfg fs0 wd q bs S
+
+/-- the side condition is the honest one: a source that reads a stale path *before* rewriting it is
+outside `Safe` (here: `include x.txt` with `x.txt` stale) -/
+example (cfg : Cfg) (fs0 : FS) (p : Path) (h : fs0.resolve cfg [] ['x'] = some p) :
+    ¬ Safe cfg fs0 [] [Refine.Block.dir ⟨[], [], .include, [['x']]⟩ false] [p] := by
+  intro hs
+  have := hs.1 p (by simp [dirReads, h])
+  simp at this
+
+/-- … while writing it first makes the later read safe -/
+example (cfg : Cfg) (fs0 : FS) (p : Path) (h : fs0.resolve cfg [] ['x'] = some p) (hx : isTxtppPath ['x'] = false) :
+    Safe cfg fs0 [] [Refine.Block.dir ⟨[], ['-'], .temp, [['x'], ['b']]⟩ false, Refine.Block.dir ⟨[], [], .include, [['x']]⟩ true] [p] := by
+  refine ⟨by simp [dirReads], ?_, trivial⟩
+  intro q hq
+  simp [dirReads, h] at hq
+  subst hq
+  simp [staleAfterDir, dirWrites, hx, h]
 
 end C08
